@@ -115,8 +115,13 @@ ComponentPtr Component::create(const std::string &name) noexcept
     return std::shared_ptr<Component> {new Component {name}};
 }
 
-bool Component::ComponentImpl::performTestWithHistory(History &history, const ComponentConstPtr &component, TestType type) const
+bool Component::ComponentImpl::performTestWithHistory(History &history, std::vector<const Component *> &componentsOnPath, const ComponentConstPtr &component, TestType type) const
 {
+    // A component that is met again on the way down imports itself.
+    if (std::find(componentsOnPath.begin(), componentsOnPath.end(), mComponent) != componentsOnPath.end()) {
+        return false;
+    }
+
     if (mComponent->isImport()) {
         auto model = mComponent->importSource()->model();
         if (model == nullptr) {
@@ -134,7 +139,9 @@ bool Component::ComponentImpl::performTestWithHistory(History &history, const Co
         }
 
         history.push_back(h);
-        bool result = importedComponent->pFunc()->performTestWithHistory(history, importedComponent, type);
+        componentsOnPath.push_back(mComponent);
+        bool result = importedComponent->pFunc()->performTestWithHistory(history, componentsOnPath, importedComponent, type);
+        componentsOnPath.pop_back();
         history.pop_back();
         return result;
     }
@@ -158,7 +165,7 @@ bool Component::ComponentImpl::performTestWithHistory(History &history, const Co
 
     for (size_t i = 0; i < mComponent->componentCount(); ++i) {
         auto currentComponent = mComponent->component(i);
-        if (!currentComponent->pFunc()->performTestWithHistory(history, currentComponent, type)) {
+        if (!currentComponent->pFunc()->performTestWithHistory(history, componentsOnPath, currentComponent, type)) {
             return false;
         }
     }
@@ -477,13 +484,15 @@ bool Component::requiresImports() const
 bool Component::isDefined() const
 {
     History history;
-    return pFunc()->performTestWithHistory(history, shared_from_this(), TestType::DEFINED);
+    std::vector<const Component *> componentsOnPath;
+    return pFunc()->performTestWithHistory(history, componentsOnPath, shared_from_this(), TestType::DEFINED);
 }
 
 bool Component::doIsResolved() const
 {
     History history;
-    return pFunc()->performTestWithHistory(history, shared_from_this(), TestType::RESOLVED);
+    std::vector<const Component *> componentsOnPath;
+    return pFunc()->performTestWithHistory(history, componentsOnPath, shared_from_this(), TestType::RESOLVED);
 }
 
 bool Component::doEquals(const EntityPtr &other) const
